@@ -4,14 +4,21 @@ package api
 
 // C04 (API part) — tsValues.merge does not depend on merge order or grouping.
 //
-// Rows as the series cache hands them to the PromQL engine are merged (a) as a left fold, (b) as a left
-// fold of a permutation, (c) along a random binary tree; every accumulator starts as a struct copy
-// with mergeCount == 0 exactly as promql.go does (`tagV.tsValues = row.tsValues`, then `.merge`), so
-// both the deep-copy path (first merge) and the in-place path (later merges) run. The reference is
-// computed from the row list with exact rationals and an exact set of 32-bit hashes.
+// A pool of shared rows is built ONCE per case the way the series cache holds them (unique sketches
+// and digests decoded from their ClickHouse wire form, the cache owns them and they are read-only).
+// The pool is then folded REPEATEDLY (left fold, then 2–3 further rounds: folds of permutations and
+// random binary trees) over the same shared objects, with the protocol of promql.go: the accumulator
+// is a struct copy of the first row (mergeCount == 0, sharing sketch/digest memory with the cache),
+// every further row is passed to merge() by value. Asserted: (a) every round gives the same
+// count/min/max/sum/sumsquare/cardinality/unique estimate as the reference computed from the row
+// definitions (exact rationals, exact set of 32-bit hashes); (b) after every round every shared row is
+// bit-for-bit what it was (scalars, hosts, marshalled sketch bytes, digest centroids) — immutability of
+// cached rows is what makes order independence possible at all.
 
 import (
+	"bytes"
 	"encoding/json"
+	"fmt"
 	"math"
 	"math/big"
 	"math/bits"
@@ -41,7 +48,7 @@ type c04tsRow struct {
 	USeed   uint64       `json:"useed,omitempty"`
 	UStart  uint64       `json:"ustart,omitempty"`
 	UN      uint64       `json:"un,omitempty"`
-	Pct     [][2]float64 `json:"pct,omitempty"` // (value, weight) fed to the row's digest; nil = no digest
+	Pct     [][2]float64 `json:"pct,omitempty"` // (value, weight) of the row's digest centroids (used when HasPct)
 	MinHost c04tsHost    `json:"min_host"`      // v2 int host
 	MaxHost c04tsHost    `json:"max_host"`
 	MinHStr c04tsHost    `json:"min_host_str"` // v3 string-or-int host
@@ -54,8 +61,10 @@ type c04tsOrder struct {
 }
 
 type c04tsCase struct {
-	Rows   []c04tsRow    `json:"rows"`
-	Orders [2]c04tsOrder `json:"orders"` // [0] fold of a permutation, [1] tree
+	Rows    []c04tsRow   `json:"rows"`
+	HasUniq bool         `json:"has_uniq"` // the query selected the unique column: every row holds a decoded sketch (maybe empty)
+	HasPct  bool         `json:"has_pct"`  // the query selected the percentile column: every row holds a decoded digest (maybe empty)
+	Rounds  []c04tsOrder `json:"rounds"`   // evaluated after an identity left fold, over the same shared rows
 }
 
 func c04tsIntHash32(key uint64) uint32 {
@@ -83,22 +92,87 @@ func (r *c04tsRow) values() []uint64 {
 	return out
 }
 
-func (r *c04tsRow) build() tsValues {
+// build creates the row as the series cache holds it: the sketch and the digest are decoded from their
+// ClickHouse wire form (chutil column readers: ChUnique.ReadFrom, a compression-256 digest fed with the
+// float32 centroids and normalized); columns that the query did not select stay zero.
+func (r *c04tsRow) build(t vpT, hasUniq, hasPct bool) tsValues {
 	v := tsValues{min: r.Min, max: r.Max, sum: r.Sum, count: r.Count, sumsquare: r.SumSq, cardinality: r.Card}
-	for _, x := range r.values() {
-		v.unique.Insert(x)
-	}
-	if r.Pct != nil {
-		v.percentile = tdigest.NewWithCompression(100)
-		for _, p := range r.Pct {
-			v.percentile.Add(p[0], p[1])
+	if hasUniq {
+		var tmp data_model.ChUnique
+		for _, x := range r.values() {
+			tmp.Insert(x)
 		}
+		if err := v.unique.ReadFrom(bytes.NewReader(tmp.MarshallAppend(nil))); err != nil {
+			t.Fatalf("cannot decode own sketch: %v", err)
+		}
+	}
+	if hasPct {
+		v.percentile = tdigest.NewWithCompression(256)
+		for _, p := range r.Pct {
+			v.percentile.AddCentroid(tdigest.Centroid{Mean: float64(float32(p[0])), Weight: float64(float32(p[1]))})
+		}
+		v.percentile.Normalize()
 	}
 	v.minHost = data_model.ArgMinInt32Float32{ArgMinMaxInt32Float32: data_model.ArgMinMaxInt32Float32{Arg: r.MinHost.Arg, Val: r.MinHost.Val}}
 	v.maxHost = data_model.ArgMaxInt32Float32{ArgMinMaxInt32Float32: data_model.ArgMinMaxInt32Float32{Arg: r.MaxHost.Arg, Val: r.MaxHost.Val}}
 	v.minHostStr = data_model.ArgMinStringFloat32{ArgMinMaxStringFloat32: data_model.ArgMinMaxStringFloat32{AsString: r.MinHStr.Str, AsInt32: r.MinHStr.Arg, Val: r.MinHStr.Val}}
 	v.maxHostStr = data_model.ArgMaxStringFloat32{ArgMinMaxStringFloat32: data_model.ArgMinMaxStringFloat32{AsString: r.MaxHStr.Str, AsInt32: r.MaxHStr.Arg, Val: r.MaxHStr.Val}}
 	return v
+}
+
+// c04tsSnap is a deep snapshot of a shared row.
+type c04tsSnap struct {
+	scalars   [6]float64
+	mergeCnt  int
+	hosts     string
+	sketch    []byte
+	items     int
+	size      uint64
+	hasDigest bool
+	centroids []tdigest.Centroid
+	weight    float64
+}
+
+func c04tsSnapshot(v *tsValues) c04tsSnap {
+	sn := c04tsSnap{
+		scalars:  [6]float64{v.min, v.max, v.sum, v.count, v.sumsquare, v.cardinality},
+		mergeCnt: v.mergeCount,
+		hosts:    fmt.Sprintf("%+v|%+v|%+v|%+v", v.minHost, v.maxHost, v.minHostStr, v.maxHostStr),
+		sketch:   v.unique.MarshallAppend(nil),
+		items:    v.unique.ItemsCount(),
+		size:     v.unique.Size(false),
+	}
+	if v.percentile != nil {
+		sn.hasDigest = true
+		sn.centroids = append([]tdigest.Centroid(nil), v.percentile.Centroids()...)
+		sn.weight = v.percentile.Count()
+	}
+	return sn
+}
+
+func (a *c04tsSnap) diff(b *c04tsSnap) string {
+	switch {
+	case a.scalars != b.scalars:
+		return fmt.Sprintf("scalars %v -> %v", a.scalars, b.scalars)
+	case a.mergeCnt != b.mergeCnt:
+		return fmt.Sprintf("mergeCount %d -> %d", a.mergeCnt, b.mergeCnt)
+	case a.hosts != b.hosts:
+		return fmt.Sprintf("hosts %s -> %s", a.hosts, b.hosts)
+	case a.items != b.items || a.size != b.size:
+		return fmt.Sprintf("unique items/size %d/%d -> %d/%d", a.items, a.size, b.items, b.size)
+	case !bytes.Equal(a.sketch, b.sketch):
+		return fmt.Sprintf("unique sketch memory changed: marshalled %d bytes (%d items declared) -> %d bytes (%d items declared)", len(a.sketch), a.items, len(b.sketch), b.items)
+	case a.hasDigest != b.hasDigest:
+		return "digest pointer appeared/disappeared"
+	case a.weight != b.weight || len(a.centroids) != len(b.centroids):
+		return fmt.Sprintf("digest %d centroids weight %v -> %d centroids weight %v", len(a.centroids), a.weight, len(b.centroids), b.weight)
+	}
+	for i := range a.centroids {
+		if a.centroids[i] != b.centroids[i] {
+			return fmt.Sprintf("digest centroid %d %v -> %v", i, a.centroids[i], b.centroids[i])
+		}
+	}
+	return ""
 }
 
 func c04tsRat(f float64) *big.Rat { return new(big.Rat).SetFloat64(f) }
@@ -143,8 +217,13 @@ func (o *c04tsOrder) valid(n int) bool {
 func c04tsProp(t vpT, c c04tsCase) (bool, []string) {
 	cls := map[string]bool{}
 	n := len(c.Rows)
-	if n < 2 || !c.Orders[0].valid(n) || !c.Orders[1].valid(n) {
+	if n < 2 || len(c.Rounds) < 1 || len(c.Rounds) > 4 {
 		t.Fatalf("bad case")
+	}
+	for k := range c.Rounds {
+		if !c.Rounds[k].valid(n) {
+			t.Fatalf("bad case: round %d", k)
+		}
 	}
 	// ---- reference
 	wMin, wMax := c.Rows[0].Min, c.Rows[0].Max
@@ -174,13 +253,15 @@ func c04tsProp(t vpT, c c04tsCase) (bool, []string) {
 		if !c04tsSmallInt(r.Sum) || !c04tsSmallInt(r.Count) || !c04tsSmallInt(r.SumSq) || !c04tsSmallInt(r.Card) {
 			exact = false
 		}
-		for _, x := range r.values() {
-			hashes[c04tsIntHash32(x)] = struct{}{}
+		if c.HasUniq {
+			for _, x := range r.values() {
+				hashes[c04tsIntHash32(x)] = struct{}{}
+			}
 		}
-		if r.Pct != nil {
+		if c.HasPct {
 			anyPct = true
 			for _, p := range r.Pct {
-				pctWeight += p[1]
+				pctWeight += float64(float32(p[1]))
 			}
 		}
 		minHostVal = float32(math.Min(float64(minHostVal), float64(r.MinHost.Val)))
@@ -211,7 +292,23 @@ func c04tsProp(t vpT, c c04tsCase) (bool, []string) {
 		return false
 	}
 
-	// ---- the three orders
+	// ---- the shared pool, built once
+	pool := make([]tsValues, n)
+	snaps := make([]c04tsSnap, n)
+	rowUniq := make([]int, n)
+	for i := range c.Rows {
+		pool[i] = c.Rows[i].build(t, c.HasUniq, c.HasPct)
+		snaps[i] = c04tsSnapshot(&pool[i])
+		rowUniq[i] = pool[i].unique.ItemsCount()
+		if c.HasUniq && rowUniq[i] == 0 {
+			cls["row-with-empty-uniques"] = true
+		}
+		if c.HasPct && len(c.Rows[i].Pct) == 0 {
+			cls["row-with-empty-digest"] = true
+		}
+	}
+
+	// ---- rounds: identity left fold first, then the generated ones, all over the same shared rows
 	left := c04tsOrder{}
 	for i := 0; i < n; i++ {
 		left.Perm = append(left.Perm, i)
@@ -219,83 +316,95 @@ func c04tsProp(t vpT, c c04tsCase) (bool, []string) {
 			left.Steps = append(left.Steps, [2]int{0, 1})
 		}
 	}
+	rounds := []*c04tsOrder{&left}
+	for k := range c.Rounds {
+		rounds = append(rounds, &c.Rounds[k])
+	}
 	nonIdentity := false
-	for k, o := range []*c04tsOrder{&left, &c.Orders[0], &c.Orders[1]} {
+	for k, o := range rounds {
 		for i, p := range o.Perm {
 			if p != i {
 				nonIdentity = true
 			}
 		}
-		// rows are built fresh per order: the real rows live in a read-only cache and merge() promises not to
-		// modify them; that promise is checked below by comparing the leaves' sketches afterwards
-		leaves := make([]tsValues, n)
-		sizesBefore := make([]uint64, n)
-		for i := range c.Rows {
-			leaves[i] = c.Rows[i].build()
-			sizesBefore[i] = leaves[i].unique.Size(false)
-		}
 		work := make([]tsValues, n)
+		// per accumulator: 0 = nothing special, 1 = started from a row with uniques and the first row merged in
+		// had none (the copy on first merge is the only thing that separates it from cache memory)
+		armed := make([]int, n)
+		leafUniq := make([]int, n) // unique items of the accumulator when it still is a plain copy of a cached row
 		for i, p := range o.Perm {
-			work[i] = leaves[p] // struct copy, mergeCount == 0, shares sketch memory with the "cache"
+			work[i] = pool[p] // `tagV.tsValues = row.tsValues`: struct copy, mergeCount == 0, shares memory with the cache
+			leafUniq[i] = rowUniq[p]
 		}
 		for _, s := range o.Steps {
 			if s != [2]int{0, 1} {
 				nonIdentity = true
 			}
-			if work[s[0]].mergeCount == 0 {
+			dst, src := &work[s[0]], work[s[1]]
+			if dst.mergeCount == 0 {
 				cls["copy-path"] = true
+				if c.HasUniq && leafUniq[s[0]] > 0 && src.unique.ItemsCount() == 0 {
+					armed[s[0]] = 1
+				}
 			} else {
 				cls["in-place-path"] = true
+				if armed[s[0]] == 1 && src.unique.ItemsCount() > 0 {
+					cls["first merged row has no uniques, later row has"] = true
+				}
 			}
-			work[s[0]].merge(work[s[1]])
+			dst.merge(src) // rhs by value, as `tagV.tsValues.merge(data[i][j].tsValues)`
 			work = append(work[:s[1]], work[s[1]+1:]...)
+			armed = append(armed[:s[1]], armed[s[1]+1:]...)
+			leafUniq = append(leafUniq[:s[1]], leafUniq[s[1]+1:]...)
 		}
 		res := &work[0]
 		if res.min != wMin || res.max != wMax {
-			t.Fatalf("order %d: min/max %v/%v, want %v/%v", k, res.min, res.max, wMin, wMax)
+			t.Fatalf("round %d: min/max %v/%v, want %v/%v", k, res.min, res.max, wMin, wMax)
 		}
 		if !c04tsClose(res.count, count, count, exact) {
-			t.Fatalf("order %d: count %v, want %v", k, res.count, count.FloatString(6))
+			t.Fatalf("round %d: count %v, want %v", k, res.count, count.FloatString(6))
 		}
 		if !c04tsClose(res.sum, sum, sumAbs, exact) {
-			t.Fatalf("order %d: sum %v, want %v", k, res.sum, sum.FloatString(6))
+			t.Fatalf("round %d: sum %v, want %v", k, res.sum, sum.FloatString(6))
 		}
 		if !c04tsClose(res.sumsquare, sumsq, sumsq, exact) {
-			t.Fatalf("order %d: sumsquare %v, want %v", k, res.sumsquare, sumsq.FloatString(6))
+			t.Fatalf("round %d: sumsquare %v, want %v", k, res.sumsquare, sumsq.FloatString(6))
 		}
 		if !c04tsClose(res.cardinality, card, card, exact) {
-			t.Fatalf("order %d: cardinality %v, want %v", k, res.cardinality, card.FloatString(6))
+			t.Fatalf("round %d: cardinality %v, want %v", k, res.cardinality, card.FloatString(6))
 		}
 		if got := res.unique.Size(false); got != uint64(len(hashes)) {
-			t.Fatalf("order %d: unique estimate %d, rows hold %d distinct hashes", k, got, len(hashes))
+			t.Fatalf("round %d (%+v): unique estimate %d, rows hold %d distinct hashes", k, *o, got, len(hashes))
 		}
 		if anyPct {
 			if res.percentile == nil || math.Abs(res.percentile.Count()-pctWeight) > 1e-9*pctWeight {
-				t.Fatalf("order %d: digest weight, want %v", k, pctWeight)
+				t.Fatalf("round %d: digest weight, want %v", k, pctWeight)
 			}
 		} else if res.percentile != nil {
-			t.Fatalf("order %d: digest appeared from nowhere", k)
+			t.Fatalf("round %d: digest appeared from nowhere", k)
 		}
-		// host attributions: the smallest (largest) recorded value wins whatever the order; the host is one
-		// that recorded exactly that value
 		if res.minHost.Val != minHostVal || !hostOK(res.minHost.Arg, "", res.minHost.Val, func(r *c04tsRow) c04tsHost { return r.MinHost }) {
-			t.Fatalf("order %d: min host %+v, smallest recorded value %v", k, res.minHost, minHostVal)
+			t.Fatalf("round %d: min host %+v, smallest recorded value %v", k, res.minHost, minHostVal)
 		}
 		if res.maxHost.Val != maxHostVal || !hostOK(res.maxHost.Arg, "", res.maxHost.Val, func(r *c04tsRow) c04tsHost { return r.MaxHost }) {
-			t.Fatalf("order %d: max host %+v, largest recorded value %v", k, res.maxHost, maxHostVal)
+			t.Fatalf("round %d: max host %+v, largest recorded value %v", k, res.maxHost, maxHostVal)
 		}
 		if res.minHostStr.Val != minHStrVal || !hostOK(res.minHostStr.AsInt32, res.minHostStr.AsString, res.minHostStr.Val, func(r *c04tsRow) c04tsHost { return r.MinHStr }) {
-			t.Fatalf("order %d: min host (v3) %+v, smallest recorded value %v", k, res.minHostStr, minHStrVal)
+			t.Fatalf("round %d: min host (v3) %+v, smallest recorded value %v", k, res.minHostStr, minHStrVal)
 		}
 		if res.maxHostStr.Val != maxHStrVal || !hostOK(res.maxHostStr.AsInt32, res.maxHostStr.AsString, res.maxHostStr.Val, func(r *c04tsRow) c04tsHost { return r.MaxHStr }) {
-			t.Fatalf("order %d: max host (v3) %+v, largest recorded value %v", k, res.maxHostStr, maxHStrVal)
+			t.Fatalf("round %d: max host (v3) %+v, largest recorded value %v", k, res.maxHostStr, maxHStrVal)
 		}
-		// rows in the cache must not have been modified (deep copy on the first merge)
-		for i := range leaves {
-			if got := leaves[i].unique.Size(false); got != sizesBefore[i] {
-				t.Fatalf("order %d: cached row %d was modified by merge: unique %d -> %d", k, i, sizesBefore[i], got)
+		// (b) the cache is read-only: every shared row must be exactly what it was before the first fold
+		for i := range pool {
+			now := c04tsSnapshot(&pool[i])
+			if d := snaps[i].diff(&now); d != "" {
+				t.Fatalf("round %d (%+v): shared (cached) row %d was modified by merge: %s", k, *o, i, d)
 			}
 		}
+	}
+	if len(rounds) >= 3 {
+		cls["rounds>=3"] = true
 	}
 	if len(hosts) >= 2 {
 		cls["multi-host"] = true
@@ -305,7 +414,8 @@ func c04tsProp(t vpT, c c04tsCase) (bool, []string) {
 		out = append(out, k)
 	}
 	sort.Strings(out)
-	return nonIdentity && (len(hosts) >= 2 || len(hashes) > 0), out
+	_ = nonIdentity
+	return len(hosts) >= 2 || len(hashes) > 0, out
 }
 
 // ---------- generator ----------
@@ -328,11 +438,14 @@ func c04tsGenHost(t *rapid.T, str bool, exactVals bool) c04tsHost {
 func c04tsGen() *rapid.Generator[c04tsCase] {
 	return rapid.Custom(func(t *rapid.T) c04tsCase {
 		var c c04tsCase
-		n := rapid.SampledFrom([]int{2, 2, 3, 3, 4, 5, 8}).Draw(t, "n")
+		n := rapid.SampledFrom([]int{2, 3, 3, 3, 4, 4, 5, 8}).Draw(t, "n")
 		ints := rapid.IntRange(0, 2).Draw(t, "ints") != 0
 		useed := rapid.Uint64().Draw(t, "useed")
-		uniq := rapid.IntRange(0, 2).Draw(t, "uniqMode") // 0 none, 1 small explicit, 2 ranges
-		pct := rapid.IntRange(0, 3).Draw(t, "pct") == 0
+		uniq := rapid.SampledFrom([]int{0, 1, 1, 1, 2, 2}).Draw(t, "uniqMode") // 0 column not selected, 1 small explicit, 2 ranges
+		c.HasUniq = uniq != 0
+		c.HasPct = rapid.IntRange(0, 3).Draw(t, "pct") == 0
+		pct := c.HasPct
+		emptyRate := rapid.SampledFrom([]int{2, 2, 3, 5}).Draw(t, "emptyRate") // one row in emptyRate has an empty sketch
 		for i := 0; i < n; i++ {
 			var r c04tsRow
 			if ints {
@@ -352,9 +465,13 @@ func c04tsGen() *rapid.Generator[c04tsCase] {
 				r.SumSq = rapid.Float64Range(0, 1e18).Draw(t, "sumsqf")
 				r.Card = rapid.Float64Range(0, 1e6).Draw(t, "cardf")
 			}
-			switch uniq {
+			u := uniq
+			if u != 0 && rapid.IntRange(1, emptyRate).Draw(t, "emptyUniq") == 1 {
+				u = 0 // decoded, but empty sketch
+			}
+			switch u {
 			case 1:
-				k := rapid.IntRange(0, 20).Draw(t, "nu")
+				k := rapid.IntRange(1, 20).Draw(t, "nu")
 				for j := 0; j < k; j++ {
 					r.Uniq = append(r.Uniq, uint64(rapid.IntRange(0, 40).Draw(t, "u")))
 				}
@@ -365,9 +482,8 @@ func c04tsGen() *rapid.Generator[c04tsCase] {
 					r.UN = uint64(rapid.IntRange(1, 3000).Draw(t, "un"))
 				}
 			}
-			if pct && rapid.IntRange(0, 3).Draw(t, "rowPct") != 0 {
+			if pct && rapid.IntRange(0, 2).Draw(t, "rowPct") != 0 {
 				k := rapid.IntRange(0, 5).Draw(t, "npct")
-				r.Pct = [][2]float64{}
 				for j := 0; j < k; j++ {
 					r.Pct = append(r.Pct, [2]float64{float64(rapid.IntRange(-10, 100).Draw(t, "pv")), float64(rapid.IntRange(1, 10).Draw(t, "pw"))})
 				}
@@ -378,17 +494,22 @@ func c04tsGen() *rapid.Generator[c04tsCase] {
 			r.MaxHStr = c04tsGenHost(t, true, ints)
 			c.Rows = append(c.Rows, r)
 		}
-		for k := 0; k < 2; k++ {
-			o := c04tsOrder{Perm: rapid.Permutation(func() []int {
-				l := make([]int, n)
-				for i := range l {
-					l[i] = i
-				}
-				return l
-			}()).Draw(t, "perm")}
+		iota := make([]int, n)
+		for i := range iota {
+			iota[i] = i
+		}
+		nr := rapid.IntRange(2, 3).Draw(t, "nRounds")
+		for k := 0; k < nr; k++ {
+			var o c04tsOrder
+			mode := rapid.IntRange(0, 3).Draw(t, "roundMode") // 0 identity again, 1-2 fold of a permutation, 3 tree
+			if mode == 0 {
+				o.Perm = append([]int(nil), iota...)
+			} else {
+				o.Perm = rapid.Permutation(iota).Draw(t, "perm")
+			}
 			m := n
 			for s := 0; s < n-1; s++ {
-				if k == 0 {
+				if mode != 3 {
 					o.Steps = append(o.Steps, [2]int{0, 1})
 				} else {
 					i := rapid.IntRange(0, m-1).Draw(t, "si")
@@ -400,7 +521,7 @@ func c04tsGen() *rapid.Generator[c04tsCase] {
 				}
 				m--
 			}
-			c.Orders[k] = o
+			c.Rounds = append(c.Rounds, o)
 		}
 		return c
 	})
